@@ -189,8 +189,22 @@ func c07Parse(c *fw.Case, st *sut.Stack, ns string, typ byte, s *opStep, expect 
 		c.Count("rule-violations", 1)
 	}
 	c.Journal(s.Built.Request)
+	// the verdict on a request does not depend on what the same parser was asked before: half of the requests are first
+	// parsed in batch mode (which skips the request-time rules) and have their reveal value / commitment extracted
+	sandwich := c.Rng.Bool()
+	if sandwich {
+		c.Count("parsed-in-batch-mode-first", 1)
+		st.Parser.ParseOperation(ns, s.Built.Request, true)
+		st.Parser.GetRevealValue(s.Built.Request)
+		st.Parser.GetCommitment(s.Built.Request)
+	}
 	op, err := st.Parser.Parse(ns, s.Built.Request)
-	w := map[string]interface{}{"request": string(s.Built.Request), "type": typeName(typ), "rule": rule, "expected_accept": expect, "err": fmt.Sprint(err)}
+	w := map[string]interface{}{"request": string(s.Built.Request), "type": typeName(typ), "rule": rule, "expected_accept": expect, "err": fmt.Sprint(err), "parsed_in_batch_mode_first": sandwich}
+	if _, err2 := st.Parser.Parse(ns, s.Built.Request); (err2 == nil) != (err == nil) {
+		w["second_err"] = fmt.Sprint(err2)
+		c.Failf("repeated-parse-differs:"+rule, w, "%s (%s): first Parse returned err=%v, the identical second one err=%v", typeName(typ), rule, err, err2)
+		return
+	}
 	if (err == nil) != expect {
 		if expect {
 			c.Failf("valid-refused:"+rule, w, "%s (%s): expected acceptance, parser refused: %v", typeName(typ), rule, err)
